@@ -252,7 +252,19 @@ class Prop(SeqProp):
                             steps.append(("clear", []))
                     else:
                         steps.append(("len", []))
+            rng_init = None
+            if kind == "sset" and rng.random() < 0.06:
+                # the initial values are a `range` object (ascending, descending, stepped, empty) over the ints 0..3 of the pool
+                a, b = rng.randint(-1, 4), rng.randint(-1, 4)
+                st = rng.choice([1, -1, 2, -2, -1])
+                vals = [v for v in range(a, b, st) if 0 <= v <= 3]
+                if list(range(a, b, st)) == vals:
+                    rng_init = [a, b, st]
+                    INT_IDX = {0: 5, 1: 7, 2: 9, 3: 11}
+                    steps = [("init", [INT_IDX[v] for v in vals])] + [s_ for s_ in steps if s_[0] != "init"]
             c = self.mk(kind, steps)
+            if rng_init is not None:
+                c.meta["range_init"] = rng_init
             # how the initial collection is handed over (list / tuple / one-shot iterator / builtin set or dict / an object
             # of the class itself that lives on and is changed behind the new object's back)
             c.meta["form"] = rng.randrange(6)
@@ -383,7 +395,9 @@ class Prop(SeqProp):
                 if kind == "sset":
                     if op == "init":
                         vals = [self.val(a) for a in args]
-                        if form == 1:
+                        if case.meta.get("range_init") is not None:
+                            obj = SortedSet(range(*case.meta["range_init"]))
+                        elif form == 1:
                             obj = SortedSet(tuple(vals))
                         elif form == 2:
                             obj = SortedSet(iter(vals))
